@@ -98,6 +98,11 @@ def parseQuotedGo : Nat → Bytes → Bytes → Except Exn (Bytes × Bytes)
         else if e == DQUOTE then parseQuotedGo fuel rest' (acc ++ [DQUOTE])
         else if e == 110 then parseQuotedGo fuel rest' (acc ++ [NL])
         else if e == 116 then parseQuotedGo fuel rest' (acc ++ [TAB])
+        else if e == 97 then parseQuotedGo fuel rest' (acc ++ [7])       -- \a \b \f \r \v (D89)
+        else if e == 98 then parseQuotedGo fuel rest' (acc ++ [8])
+        else if e == 102 then parseQuotedGo fuel rest' (acc ++ [12])
+        else if e == 114 then parseQuotedGo fuel rest' (acc ++ [CR])
+        else if e == 118 then parseQuotedGo fuel rest' (acc ++ [11])
         else if isOctal e then
           let v0 : Nat := e.toNat - 48
           match rest' with
